@@ -416,16 +416,18 @@ def gen_C05(rng, tier, diag=None):
                 flagsets = [('10', '00'), ('11', '00'), ('01', '00'), ('d', '00')]
             else:
                 flagsets = [('1', '0'), ('d', '0')]
+            # every index of the table is exercised in both tiers (a single stale entry must not
+            # slip through); the quick tier uses one random alignment per index, thorough all of them
             idxs = range(1 << rb)
-            aligns = range(W) if (not quick or W <= 8) else sorted(set([0, 1, W // 2, W - 1] + [rng.randrange(W) for _ in range(2)]))
-            if quick:
-                idxs = sorted(set(rng.sample(range(1 << rb), 96)) | set(range(0, 16)) | set((1 << i) for i in range(rb)) | {(1 << rb) - 1})
+            aligns = list(range(W))
             for idx in idxs:
-                for al in (aligns if not quick else rng.sample(list(aligns), min(2, len(list(aligns))))):
+                als = aligns if (not quick) else [rng.choice(aligns)]
+                if quick and idx < 32:
+                    als = sorted(set(als + [0, W - 1]))
+                for al in als:
                     pre = [rng.getrandbits(1) for _ in range(al)]
                     body = field(le, idx, rb)
                     tail = [rng.getrandbits(1) for _ in range(rng.randrange(0, 80))] + [1]
-                    strict = 'strict=1' in cfg
                     bits = pre + body + tail
                     data = bits_to_bytes(le, bits)
                     tf, nf = rng.choice(flagsets)
